@@ -367,6 +367,7 @@ def e2e_scenarios(rnd, count, big):
                 "status": rnd.choice([0, 1, 2, 127, 255, rnd.randint(0, 2 ** 31 - 1)]),
                 "seed": rnd.randrange(1 << 30),
             })
+        chans[0]["status"] = rnd.randint(256, 2 ** 31 - 1)      # every scenario carries a status wider than a byte
         # tiny chunks only on small streams (bounds the number of trace events)
         for ch in chans:
             for k, name in enumerate(("out", "err", "up")):
@@ -386,7 +387,6 @@ def e2e_scenarios(rnd, count, big):
 def run_e2e(scn, watchdog=120.0):
     """execute one scenario on real transports; returns {"traces": [...], "problems": [...], "info": {...}}.
     One trace per (channel, direction)."""
-    from paramiko.buffered_pipe import PipeTimeout   # noqa: F401  (import check)
     total = sum(c["out"] + c["err"] + c["up"] for c in scn["chans"])
     book_down = Codebook(scn["seed"], 0)       # server -> client streams
     book_up = Codebook(scn["seed"] + 7, 0)     # client -> server
@@ -396,7 +396,6 @@ def run_e2e(scn, watchdog=120.0):
                 counter_c=(1 << 24) - 3 if scn.get("wrap_ids") else None,
                 counter_s=(1 << 24) - 2 if scn.get("wrap_ids") else None)
     traces = []
-    threads = []
     info = {"bytes": total, "rekeys": 0, "ids": []}
     try:
         sessions = []
